@@ -5,6 +5,8 @@
 -/
 import Rox.Props.C14Base
 import Rox.Lemmas.ErrPos
+import Rox.Lemmas.ShiftErr
+import Rox.Generated
 
 namespace Rox.Props.C14
 open Rox Rox.Lemmas
@@ -45,5 +47,32 @@ theorem error_column_le_line (T : Tables) (txt : Bytes) (opt : Opt) (e : Err)
   rcases error_position_from_input T txt opt e h with h1 | ⟨q, hq, hp⟩
   · exact Or.inl h1
   · exact Or.inr ⟨q, hq, by rw [hp]; exact col_le_line txt q, by rw [hp]⟩
+
+/-- **Errors move with the text: spaces** (every rejected input — valid UTF-8, not beginning with a
+BOM or an XML declaration, which must come first —, every `k`, every option value, errors raised
+during entity expansion included): with `k` spaces of prolog white space in front, `parse` returns
+the same error — same kind, same names and characters in its payload — and its position is exactly
+`k` columns further right when it was on the first line, and unchanged otherwise. -/
+theorem error_moves_with_spaces (txt : Bytes) (hv : ValidUtf8 txt) (opt : Opt) (e : Err) (k : Nat)
+    (hbom : Stream.startsWith ⟨0, txt⟩ Lit.bom = false)
+    (hdecl : Stream.startsWith ⟨0, txt⟩ Lit.xmlDecl = false)
+    (h : parse Generated.tables txt opt = .err e) :
+    parse Generated.tables (List.replicate k 32 ++ txt) opt = .err (e.mapPos (shPosSp k)) :=
+  parse_shift_err Generated.tables (by decide) txt hv opt e k hbom hdecl h
+
+/-- **Errors move with the text: line breaks**: with `k` line feeds in front, the same error is
+returned with its row increased by exactly `k` and its column unchanged. -/
+theorem error_moves_with_line_breaks (txt : Bytes) (hv : ValidUtf8 txt) (opt : Opt) (e : Err) (k : Nat)
+    (hbom : Stream.startsWith ⟨0, txt⟩ Lit.bom = false)
+    (hdecl : Stream.startsWith ⟨0, txt⟩ Lit.xmlDecl = false)
+    (h : parse Generated.tables txt opt = .err e) :
+    parse Generated.tables (List.replicate k 10 ++ txt) opt = .err (e.mapPos (shPosNl k)) :=
+  parse_shift_err_nl Generated.tables (by decide) txt hv opt e k hbom hdecl h
+
+/-- the position maps say what they should: an error at 1:7 moves to 1:10 under three spaces and to
+4:7 under three line breaks; an error on line 2 does not move under spaces -/
+example : shPosSp 3 ⟨1, 7⟩ = ⟨1, 10⟩ ∧ shPosNl 3 ⟨1, 7⟩ = ⟨4, 7⟩ ∧ shPosSp 3 ⟨2, 7⟩ = ⟨2, 7⟩ ∧
+    (Err.unexpectedCloseTag [97] [98] ⟨1, 7⟩).mapPos (shPosSp 3) = .unexpectedCloseTag [97] [98] ⟨1, 10⟩ := by
+  decide
 
 end Rox.Props.C14
